@@ -14,6 +14,7 @@ import (
 	"verif/checker/internal/eval"
 	"verif/checker/internal/flow"
 	"verif/checker/internal/load"
+	"verif/checker/internal/ref"
 )
 
 const cssMinT = load.Mod + "/css.cssMinifier"
@@ -259,6 +260,7 @@ func runC04(c *Ctx) {
 	c.r0427(pk, "R04.27")
 	c.r0428(pk)
 	c.r0429(pk)
+	c.r0431(pk)
 	// positions remembered while rewriting a value list (background layers) stay valid: same rule as R10.5, css only
 	c.alsoUnder(map[string]string{"R10.5": "R04.8"}, func(construct string) bool {
 		return strings.HasPrefix(construct, "css.") || strings.HasPrefix(construct, "floor/")
@@ -2237,4 +2239,53 @@ func (c *Ctx) r0429(pk *packages.Package) {
 		}
 	}
 	c.R.Floor(rule, "hues converted with HSL2RGB", n, 1)
+}
+
+// R04.31: properties that share the code of a case clause have values of the same shape.
+func (c *Ctx) r0431(pk *packages.Package) {
+	const rule = "R04.31"
+	c.R.Rule(rule, "cssMinifier.minifyProperty rewrites values by position (the second of two components is the vertical position, the fourth of four the left side …). A case clause that lists several properties applies one such reading to all of them: every property of a multi-property case clause belongs to the same group of ref.CSSValueShape (sides, line, color, number, position, position-axis). `case Background_Position, Background_Position_X, Background_Position_Y` read `background-position-x:right 10px` as a horizontal and a vertical position (`100% 10px`)")
+	info := pk.TypesInfo
+	fd := c.fn(rule, pk, "cssMinifier.minifyProperty")
+	if fd == nil {
+		return
+	}
+	n := 0
+	ast.Inspect(fd.Body, func(x ast.Node) bool {
+		cc, ok := x.(*ast.CaseClause)
+		if !ok || len(cc.List) < 2 {
+			return true
+		}
+		var names []string
+		for _, e := range cc.List {
+			id, ok := ast.Unparen(e).(*ast.Ident)
+			if !ok {
+				return true
+			}
+			k, ok := info.Uses[id].(*types.Const)
+			if !ok || !strings.HasSuffix(k.Type().String(), "css.Hash") {
+				return true
+			}
+			names = append(names, strings.ToLower(strings.ReplaceAll(id.Name, "_", "-")))
+		}
+		n++
+		groups := map[string][]string{}
+		for _, nm := range names {
+			g := ref.CSSValueShape[nm]
+			if g == "" {
+				g = "not in the reference (" + nm + ")"
+			}
+			groups[g] = append(groups[g], nm)
+		}
+		var desc []string
+		for g, ns := range groups {
+			sort.Strings(ns)
+			desc = append(desc, g+": "+strings.Join(ns, ", "))
+		}
+		sort.Strings(desc)
+		c.R.Check(len(groups) == 1, rule, "css.cssMinifier.minifyProperty/case "+strings.Join(names, ", ")+" lists properties of one value shape", c.pos(cc), desc[0],
+			"one case clause rewrites properties whose values have different shapes ("+strings.Join(desc, "; ")+"): a rewrite by position reads the components of one of them wrongly — `background-position-x:right 10px` became `100% 10px`")
+		return true
+	})
+	c.R.Floor(rule, "case clauses with several properties", n, 4)
 }
